@@ -158,7 +158,7 @@ static void calc_case(uint64_t index)
     unsigned kind = (unsigned)hv_below(&R, 10);
     if (kind < 7) { if (gen_chain((unsigned)hv_below(&R, NL), NULL, 2, &tx, term, &nested) < 0) { hv_str_free(&tx); continue; } }
     else if (kind == 7) { hv_str_add(&tx, "%s", hv_chance(&R, 1, 2) ? "all" : "root"); hwloc_bitmap_copy(term, hwloc_topology_get_topology_cpuset(T)); }
-    else { int id; hwloc_bitmap_foreach_begin(id, hwloc_topology_get_topology_cpuset(T)) if (hv_chance(&R, 1, 3)) hwloc_bitmap_set(term, (unsigned)id); hwloc_bitmap_foreach_end(); char b[600]; hwloc_bitmap_snprintf(b, sizeof b, term); hv_str_add(&tx, "%s", b); }
+    else { int id; hwloc_bitmap_foreach_begin(id, hwloc_topology_get_topology_cpuset(T)) if (hv_chance(&R, 1, 3)) hwloc_bitmap_set(term, (unsigned)id); hwloc_bitmap_foreach_end(); char b[16384]; hwloc_bitmap_snprintf(b, sizeof b, term); hv_str_add(&tx, "%s", b); }
     if (op == '~') hwloc_bitmap_andnot(set, set, term); else if (op == 'x') hwloc_bitmap_and(set, set, term); else if (op == '^') hwloc_bitmap_xor(set, set, term); else hwloc_bitmap_or(set, set, term);
     terms[made++] = tx.s;      /* ownership of the buffer moves to terms[] */
   }
@@ -180,7 +180,7 @@ static void calc_case(uint64_t index)
   for (unsigned k = 0; k < made; k++) args[a++] = terms[k];
   args[a] = NULL;
   args_desc("hwloc-calc", args);
-  char ss[700]; hwloc_bitmap_snprintf(ss, sizeof ss, set); hv_desc("  expected set %s\n", ss);
+  char ss[16384]; hwloc_bitmap_snprintf(ss, sizeof ss, set); hv_desc("  expected set %s\n", ss);
   hv_ctxkey("calc:mode%u", mode);
   struct run r; run_tool("hwloc-calc", args, NULL, &r); chomp(&r.out);
   static const char *const MN[] = { "set", "intersect", "number_of", "largest", "single", "hierarchical", "intersect_physical", "set" };
@@ -189,7 +189,7 @@ static void calc_case(uint64_t index)
     if (!r.exited || r.code != 0) { snprintf(key, sizeof key, "calc.%s.failed", MN[mode]); hv_viol(key, "hwloc-calc exited with %d on a valid command line: %.300s", r.code, r.err.s); }
     else if (mode == 0 || mode == 7 || mode == 4) {
       hwloc_bitmap_t e = hwloc_bitmap_dup(set); if (mode == 4) hwloc_bitmap_singlify(e);
-      char want[700]; fmt_set(e, fmt, want, sizeof want);
+      char want[16384]; fmt_set(e, fmt, want, sizeof want);
       if (strcmp(want, r.out.s)) { snprintf(key, sizeof key, "calc.%s.%s", MN[mode], fmt == 1 ? "list" : fmt == 2 ? "taskset" : "hwloc"); hv_viol(key, "hwloc-calc printed \"%.300s\", the library gives \"%s\"", r.out.s, want); }
       hwloc_bitmap_free(e);
     } else if (mode == 1 || mode == 2 || mode == 6) {
@@ -209,7 +209,7 @@ static void calc_case(uint64_t index)
       for (char *tok = strtok(copy, " "); tok && b < 2090; tok = strtok(NULL, " ")) a2[b++] = tok;
       a2[b] = NULL;
       if (b < 2090) { struct run r2; run_tool("hwloc-calc", a2, NULL, &r2); chomp(&r2.out);
-        char want[700]; hwloc_bitmap_snprintf(want, sizeof want, e);
+        char want[16384]; hwloc_bitmap_snprintf(want, sizeof want, e);
         if (!tool_died("hwloc-calc", &r2) && strcmp(want, r2.out.s)) { snprintf(key, sizeof key, "calc.%s.feedback", MN[mode]); hv_viol(key, "%s printed \"%.300s\"; feeding it back gives %.100s, expected %s", mode == 3 ? "--largest" : "-H", r.out.s, r2.out.s, want); }
         run_free(&r2); hv_stat(mode == 3 ? "calc.largest_fed_back" : "calc.hierarchical_fed_back", 1); }
       free(copy); hwloc_bitmap_free(e); (void)tbuf2;
